@@ -191,11 +191,17 @@ func (s *CBOServiceImpl) sortClasses(classes []domain.ClassCoupling, sortBy doma
 	switch sortBy {
 	case domain.SortByCoupling:
 		sort.Slice(sorted, func(i, j int) bool {
-			return sorted[i].Metrics.CouplingCount > sorted[j].Metrics.CouplingCount
+			if sorted[i].Metrics.CouplingCount != sorted[j].Metrics.CouplingCount {
+				return sorted[i].Metrics.CouplingCount > sorted[j].Metrics.CouplingCount
+			}
+			return classLocationLess(sorted[i], sorted[j])
 		})
 	case domain.SortByName:
 		sort.Slice(sorted, func(i, j int) bool {
-			return sorted[i].Name < sorted[j].Name
+			if sorted[i].Name != sorted[j].Name {
+				return sorted[i].Name < sorted[j].Name
+			}
+			return classLocationLess(sorted[i], sorted[j])
 		})
 	case domain.SortByRisk:
 		sort.Slice(sorted, func(i, j int) bool {
@@ -204,23 +210,38 @@ func (s *CBOServiceImpl) sortClasses(classes []domain.ClassCoupling, sortBy doma
 				domain.RiskLevelMedium: 2,
 				domain.RiskLevelLow:    1,
 			}
-			return riskOrder[sorted[i].RiskLevel] > riskOrder[sorted[j].RiskLevel]
+			if riskOrder[sorted[i].RiskLevel] != riskOrder[sorted[j].RiskLevel] {
+				return riskOrder[sorted[i].RiskLevel] > riskOrder[sorted[j].RiskLevel]
+			}
+			return classLocationLess(sorted[i], sorted[j])
 		})
 	case domain.SortByLocation:
 		sort.Slice(sorted, func(i, j int) bool {
-			if sorted[i].FilePath != sorted[j].FilePath {
-				return sorted[i].FilePath < sorted[j].FilePath
-			}
-			return sorted[i].StartLine < sorted[j].StartLine
+			return classLocationLess(sorted[i], sorted[j])
 		})
 	default:
 		// Default to sorting by coupling count (descending)
 		sort.Slice(sorted, func(i, j int) bool {
-			return sorted[i].Metrics.CouplingCount > sorted[j].Metrics.CouplingCount
+			if sorted[i].Metrics.CouplingCount != sorted[j].Metrics.CouplingCount {
+				return sorted[i].Metrics.CouplingCount > sorted[j].Metrics.CouplingCount
+			}
+			return classLocationLess(sorted[i], sorted[j])
 		})
 	}
 
 	return sorted
+}
+
+// classLocationLess orders classes by file, line and name; it is the
+// tie-breaker of every sort so that equal keys come out in a fixed order
+func classLocationLess(a, b domain.ClassCoupling) bool {
+	if a.FilePath != b.FilePath {
+		return a.FilePath < b.FilePath
+	}
+	if a.StartLine != b.StartLine {
+		return a.StartLine < b.StartLine
+	}
+	return a.Name < b.Name
 }
 
 // generateSummary creates aggregate statistics
@@ -278,7 +299,10 @@ func (s *CBOServiceImpl) generateSummary(classes []domain.ClassCoupling, filesAn
 	sortedByCount := make([]domain.ClassCoupling, len(classes))
 	copy(sortedByCount, classes)
 	sort.Slice(sortedByCount, func(i, j int) bool {
-		return sortedByCount[i].Metrics.CouplingCount > sortedByCount[j].Metrics.CouplingCount
+		if sortedByCount[i].Metrics.CouplingCount != sortedByCount[j].Metrics.CouplingCount {
+			return sortedByCount[i].Metrics.CouplingCount > sortedByCount[j].Metrics.CouplingCount
+		}
+		return classLocationLess(sortedByCount[i], sortedByCount[j])
 	})
 
 	maxTopClasses := 10
